@@ -3918,7 +3918,9 @@ fn write_residuals<W: BitWrite>(
                     .rev()
                     .map(|partition| Partition::new(partition, &mut estimated_bits))
                     .collect::<Option<ArrayVec<_, MAX_PARTITIONS>>>()
-                    .filter(|p| !p.is_empty() && p.len().is_power_of_two())?;
+                    // the decoder derives the layout from the partition order alone,
+                    // so the residuals must split into exactly that many partitions
+                    .filter(|p| p.len() == partition_count)?;
 
                 Some((partitions, estimated_bits))
             })
